@@ -4,19 +4,38 @@
 //! same (canonical) family whose first `mask` bits equal the first `mask` bits of the address.
 //! IPv4-mapped IPv6 query addresses (`::ffff:a.b.c.d`) count as the IPv4 address `a.b.c.d`.
 //! Subnets are in the canonical form `IpSubnet::from_str` produces (an IPv4-mapped IPv6 subnet is
-//! stored as IPv4; `c31_parse_*` checks the mask rule), masks within the family's width.
+//! stored as IPv4; `c31_parse_v4` checks the mask rule), masks within the family's width.
 //!
-//! Tractability: `BitTree::fill_node` is recursive with 16 guarded call sites per level. Any
-//! symbolic bit in a subnet address or mask makes the guards symbolic, and symbolic execution
-//! then instantiates 16^depth copies (measured: two concrete addresses with symbolic masks ran
-//! out of 8 GB). The subnet lists are therefore *concrete* (enumerated systematically inside each
-//! harness: every mask, nested pairs, sibling blocks that tile their parent, pseudo-random pairs),
-//! and "listed iff in some subnet" is proved for **every** query address (all 2^32 IPv4 addresses
-//! in plain and IPv4-mapped form, all 2^128 IPv6 addresses) against each list.
+//! Hybrid encoding. `BitTree::fill_node` recurses from 16 guarded call sites per level and keeps
+//! all its data on the heap, which CBMC's constant propagation does not see through: symbolic
+//! execution instantiates 16^depth copies even for one concrete /0 subnet (measured: no result in
+//! 10 min; two subnets with symbolic masks: out of memory at 8 GB). Therefore the trie
+//! *construction* is executed natively by this crate's build script (`build.rs`), which links
+//! /repo/ntp-proto's current working tree, calls the real `IpFilter::new` on a systematic set of
+//! concrete subnet lists (every mask, nested pairs in both orders, sibling blocks that tile their
+//! parent, duplicates, pseudo-random pairs) and emits the resulting nodes as constants; the
+//! harnesses below load those nodes into a real `IpFilter` (raw constructor hook) and the solver
+//! proves `is_in(addr) <=> reference predicate` for **every** address (2^32 IPv4 in plain and
+//! IPv4-mapped form, 2^128 IPv6) and **every** list in the table (the list index is symbolic).
+//! A wrong trie (e.g. a mask handled one bit off, a bad child index, a wrong coverage merge) has a
+//! misclassified address, which the solver finds.
 use crate::stubs;
 use ntp_proto::IpSubnet;
 use ntp_proto::verif::ipfilter as h;
 use std::net::{IpAddr, Ipv4Addr, Ipv6Addr};
+
+/// One generated case: the subnet list and the two tries `IpFilter::new` built for it
+/// (padded with unreachable all-zero nodes to a common length).
+pub struct Case<A, const N4: usize, const N6: usize> {
+    pub n: usize,
+    pub nets: [A; 2],
+    pub masks: [u8; 2],
+    pub len4: usize,
+    pub len6: usize,
+    pub v4: [(u32, u16, u16); N4],
+    pub v6: [(u32, u16, u16); N6],
+}
+include!(concat!(env!("OUT_DIR"), "/c31_tables.rs"));
 
 fn in4(net: u32, mask: u8, a: u32) -> bool {
     // first `mask` bits equal; mask 0 matches everything
@@ -35,19 +54,13 @@ const MAPPED: u128 = 0xffff_0000_0000;
 fn is_mapped(a: u128) -> bool {
     (a >> 32) == 0xffff
 }
-fn mask4(m: u8) -> u32 {
-    if m == 0 { 0 } else { u32::MAX << (32 - m as u32) }
-}
-fn mask6(m: u8) -> u128 {
-    if m == 0 { 0 } else { u128::MAX << (128 - m as u32) }
-}
 
-/// One concrete list of n <= 2 IPv4 subnets against every query address.
-fn case4(n: usize, nets: [u32; 2], masks: [u8; 2]) {
+fn check4<const N4: usize, const N6: usize>(c: &Case<u32, N4, N6>) {
     let q: u32 = kani::any();
     let q6: u128 = kani::any();
-    let subnets = [IpSubnet { addr: v4(nets[0]), mask: masks[0] }, IpSubnet { addr: v4(nets[1]), mask: masks[1] }];
-    let f = h::filter_new(&subnets[..n]);
+    let f = h::filter_from_nodes(&c.v4, &c.v6);
+    let (n, nets, masks) = (c.n, c.nets, c.masks);
+    assert!(n <= 2 && masks[0] <= 32 && masks[1] <= 32 && c.len4 >= 1 && c.len6 >= 1);
     let want = (n >= 1 && in4(nets[0], masks[0], q)) || (n >= 2 && in4(nets[1], masks[1], q));
     let got = h::filter_is_in(&f, v4(q));
     assert!(got == want, "IPv4 address listed iff in some configured IPv4 subnet");
@@ -57,207 +70,61 @@ fn case4(n: usize, nets: [u32; 2], masks: [u8; 2]) {
         assert!(!h::filter_is_in(&f, v6(q6)), "a proper IPv6 address is never listed by IPv4 subnets");
     }
     kani::cover!(got && n == 2 && !in4(nets[0], masks[0], q), "listed through the second subnet only");
-    kani::cover!(!got && n >= 1, "not listed");
-    kani::cover!(got, "listed");
+    kani::cover!(!got && n == 2, "not listed although two subnets are configured");
+    kani::cover!(got && n == 1 && masks[0] == 32, "listed by a /32");
+    kani::cover!(got && masks[0] == 0 && n >= 1, "listed by a /0");
 }
 
-/// One concrete list of n <= 2 (proper) IPv6 subnets against every query address.
-fn case6(n: usize, nets: [u128; 2], masks: [u8; 2]) {
+fn check6<const N4: usize, const N6: usize>(c: &Case<u128, N4, N6>) {
     let q: u128 = kani::any();
     let q4: u32 = kani::any();
-    let subnets = [IpSubnet { addr: v6(nets[0]), mask: masks[0] }, IpSubnet { addr: v6(nets[1]), mask: masks[1] }];
-    let f = h::filter_new(&subnets[..n]);
+    let f = h::filter_from_nodes(&c.v4, &c.v6);
+    let (n, nets, masks) = (c.n, c.nets, c.masks);
+    assert!(n <= 2 && c.len4 >= 1 && c.len6 >= 1 && !is_mapped(nets[0]) && !is_mapped(nets[1]));
     if !is_mapped(q) {
         let want = (n >= 1 && in6(nets[0], masks[0], q)) || (n >= 2 && in6(nets[1], masks[1], q));
         let got = h::filter_is_in(&f, v6(q));
         assert!(got == want, "IPv6 address listed iff in some configured IPv6 subnet");
         kani::cover!(got && n == 2 && !in6(nets[0], masks[0], q), "listed through the second subnet only");
-        kani::cover!(!got && n >= 1, "not listed");
-        kani::cover!(got, "listed");
+        kani::cover!(!got && n == 2, "not listed although two subnets are configured");
+        kani::cover!(got && n == 1 && masks[0] == 128, "listed by a /128");
     }
     // IPv4 (plain or mapped) query addresses are canonically IPv4: never in an IPv6 subnet.
     assert!(!h::filter_is_in(&f, v4(q4)), "IPv4 address never listed by IPv6 subnets");
     assert!(!h::filter_is_in(&f, v6(MAPPED | q4 as u128)), "IPv4-mapped address never listed by IPv6 subnets");
 }
 
-/// Deterministic pseudo-random generator for concrete configurations (xorshift64*).
-fn next_rand(s: &mut u64) -> u64 {
-    *s ^= *s >> 12;
-    *s ^= *s << 25;
-    *s ^= *s >> 27;
-    s.wrapping_mul(0x2545_F491_4F6C_DD1D)
+fn any_index(len: usize) -> usize {
+    let i: usize = kani::any();
+    kani::assume(i < len);
+    i
 }
 
-// ------------------------------------------------------------------------------------- IPv4
-fn v4_single(lo: u8, hi: u8) {
-    let mut m = lo;
-    while m <= hi {
-        case4(1, [0xc0a8_01a5, 0], [m, 0]);
-        m += 1;
-    }
-}
-/// Empty list and one subnet 192.168.1.165/m for every m in 0..=32.
+/// IPv4: 34 single-subnet lists (every mask), 108 nested pairs, 63 sibling pairs, 64 pseudo-random
+/// pairs, duplicates/extremes; every query address.
 #[kani::proof]
-#[kani::unwind(40)]
-fn c31_v4_single() {
-    case4(0, [0, 0], [0, 0]);
-    v4_single(0, 32);
+#[kani::unwind(20)]
+fn c31_v4() {
+    check4(&V4_QUICK[any_index(V4_QUICK.len())]);
 }
-
-fn v4_nested(m1s: &[u8], m2s: &[u8]) {
-    let mut i = 0;
-    while i < m1s.len() {
-        let mut j = 0;
-        while j < m2s.len() {
-            // both list orders
-            case4(2, [0xc0a8_0100, 0xc0a8_01a5], [m1s[i], m2s[j]]);
-            case4(2, [0xc0a8_01a5, 0xc0a8_0100], [m2s[j], m1s[i]]);
-            j += 1;
-        }
-        i += 1;
-    }
-}
-/// Nested / overlapping pairs 192.168.1.0/m1 and 192.168.1.165/m2.
+/// IPv4 thorough: all 33 x 33 mask pairs of the nested pair in both orders, 1024 pseudo-random pairs.
 #[kani::proof]
-#[kani::unwind(40)]
-fn c31_v4_nested() {
-    v4_nested(&[0, 16, 23, 24], &[24, 25, 27, 28, 29, 32]);
+#[kani::unwind(20)]
+fn c31_v4_full() {
+    check4(&V4_FULL[any_index(V4_FULL.len())]);
 }
-
-/// Two sibling blocks of size /m tile their /(m-1) parent; a /m block next to a /(m+1) block
-/// leaves a quarter uncovered (coverage merging and child indexing in the trie).
-fn v4_siblings(lo: u8, hi: u8) {
-    let base = 0x0a5a_c3f0u32;
-    let mut m = lo;
-    while m <= hi {
-        let n1 = base & mask4(m);
-        let n2 = n1 ^ (1u32 << (32 - m as u32));
-        case4(2, [n1, n2], [m, m]);
-        if m < 32 {
-            case4(2, [n2, n1], [m + 1, m]);
-        }
-        m += 1;
-    }
-}
+/// IPv6: selected masks incl. 0, 1, 127, 128; sibling pairs at the top, around /64 and at the bottom;
+/// nested pairs; pseudo-random pairs; every query address.
 #[kani::proof]
-#[kani::unwind(40)]
-fn c31_v4_siblings() {
-    v4_siblings(1, 32);
+#[kani::unwind(80)]
+fn c31_v6() {
+    check6(&V6_QUICK[any_index(V6_QUICK.len())]);
 }
-
-fn v4_random(seed: u64, count: usize) {
-    let mut s = seed;
-    let mut i = 0;
-    while i < count {
-        let a = next_rand(&mut s);
-        let b = next_rand(&mut s);
-        let n1 = a as u32;
-        // the second subnet shares a pseudo-random-length prefix with the first
-        let share = ((b >> 40) % 33) as u8;
-        let n2 = (n1 & mask4(share)) | (b as u32 & !mask4(share));
-        let m1 = ((a >> 32) % 33) as u8;
-        let m2 = ((b >> 32) % 33) as u8;
-        case4(2, [n1, n2], [m1, m2]);
-        i += 1;
-    }
-}
+/// IPv6 thorough: every mask 0..=128, every sibling pair, more nested and pseudo-random pairs.
 #[kani::proof]
-#[kani::unwind(40)]
-fn c31_v4_random() {
-    v4_random(0x9E37_79B9_7F4A_7C15, 24);
-}
-/// Thorough: every pair of masks for the nested pair (33 x 33 x 2 orders).
-#[kani::proof]
-#[kani::unwind(40)]
-fn c31_v4_nested_all() {
-    let all: [u8; 33] = std::array::from_fn(|i| i as u8);
-    v4_nested(&all, &all);
-}
-#[kani::proof]
-#[kani::unwind(300)]
-fn c31_v4_random_more() {
-    v4_random(0xD1B5_4A32_D192_ED03, 256);
-}
-
-// ------------------------------------------------------------------------------------- IPv6
-const V6_A: u128 = 0x2001_0db8_85a3_08d3_1319_8a2e_0370_7344;
-
-fn v6_single(ms: &[u8]) {
-    let mut i = 0;
-    while i < ms.len() {
-        case6(1, [V6_A, 0], [ms[i], 0]);
-        i += 1;
-    }
-}
-/// Empty list and one subnet 2001:db8:85a3:8d3:1319:8a2e:370:7344/m for selected m.
-#[kani::proof]
-#[kani::unwind(40)]
-fn c31_v6_single() {
-    case6(0, [0, 0], [0, 0]);
-    v6_single(&[0, 1, 3, 4, 5, 8, 16, 31, 32, 33, 64, 96, 124, 127, 128]);
-}
-
-fn v6_siblings(lo: u8, hi: u8) {
-    let mut m = lo;
-    while m <= hi {
-        let n1 = V6_A & mask6(m);
-        let n2 = n1 ^ (1u128 << (128 - m as u32));
-        case6(2, [n1, n2], [m, m]);
-        if m < 128 {
-            case6(2, [n2, n1], [m + 1, m]);
-        }
-        m += 1;
-    }
-}
-#[kani::proof]
-#[kani::unwind(40)]
-fn c31_v6_siblings_low() {
-    v6_siblings(1, 16);
-}
-#[kani::proof]
-#[kani::unwind(40)]
-fn c31_v6_siblings_high() {
-    v6_siblings(120, 128);
-}
-
-fn v6_random(seed: u64, count: usize, mlo: u8, mspan: u64) {
-    let mut s = seed;
-    let mut i = 0;
-    while i < count {
-        let a = next_rand(&mut s);
-        let b = next_rand(&mut s);
-        let c = next_rand(&mut s);
-        let d = next_rand(&mut s);
-        let n1 = ((a as u128) << 64) | b as u128 | (0x2000u128 << 112);
-        let m1 = mlo + ((c >> 32) % mspan) as u8;
-        let m2 = mlo + ((d >> 32) % mspan) as u8;
-        let share = ((c >> 8) % 129) as u8;
-        let n2 = (n1 & mask6(share)) | ((((d as u128) << 64) | c as u128) & !mask6(share));
-        case6(2, [n1, n2], [m1, m2]);
-        i += 1;
-    }
-}
-#[kani::proof]
-#[kani::unwind(40)]
-fn c31_v6_random() {
-    v6_random(0x2545_F491_4F6C_DD1D, 8, 0, 129);
-}
-/// Thorough: every mask 0..=128 for one subnet, all sibling pairs, more pseudo-random pairs.
-#[kani::proof]
-#[kani::unwind(140)]
-fn c31_v6_single_all() {
-    let all: [u8; 129] = std::array::from_fn(|i| i as u8);
-    v6_single(&all);
-}
-#[kani::proof]
-#[kani::unwind(140)]
-fn c31_v6_siblings_all() {
-    v6_siblings(1, 128);
-}
-#[kani::proof]
-#[kani::unwind(140)]
-fn c31_v6_random_more() {
-    v6_random(0x9E37_79B9_7F4A_7C15, 64, 0, 129);
+#[kani::unwind(80)]
+fn c31_v6_full() {
+    check6(&V6_FULL[any_index(V6_FULL.len())]);
 }
 
 // ------------------------------------------------------------------------------------- parsing
@@ -283,7 +150,8 @@ fn c31_parse_v4() {
             kani::cover!(mask == 32, "accepted /32");
             kani::cover!(mask == 0, "accepted /0");
         }
-        Err(_) => {
+        Err(e) => {
+            std::mem::forget(e);
             assert!(mask > 32, "rejected a well-formed IPv4 subnet");
             kani::cover!(mask == 33, "rejected /33");
         }
